@@ -153,7 +153,7 @@ func GenMuxSpec(r *RNG, maxFrames int) MuxSpec {
 		case 6:
 			m.Calls = append(m.Calls, MuxCall{Kind: "setduration", A: r.Range(-1, nf), B: r.Pick(0, 1, 100, 1<<24-1, 1<<24+5, -1)})
 		case 7:
-			m.Calls = append(m.Calls, MuxCall{Kind: "setcanvas", A: r.Pick(0, 1, 16, 32, 40, 64, 20000), B: r.Pick(0, 1, 16, 32, 40, 64)})
+			m.Calls = append(m.Calls, MuxCall{Kind: "setcanvas", A: r.Pick(0, 1, 16, 32, 40, 64, 20000, 40000, 32768), B: r.Pick(0, 1, 16, 32, 40, 64, 64, 32768, 40000)})
 		case 8:
 			m.Calls = append(m.Calls, MuxCall{Kind: "setloop", A: r.Pick(0, 1, 7, 65535, 65536, -1)})
 		case 9:
